@@ -75,6 +75,9 @@ type setupD struct {
 	React *reactD `json:"react,omitempty"`
 	// stateful ApplyCreate / ApplyDelete: the resource exists or not (initially Exists); create on
 	// an existing one fails with a duplicate error, delete of a missing one with res.ErrNotFound
+	// the handler is registered with res.Parallel(true) (Group is then ignored by the library):
+	// no worker group, so the callbacks of the case are submitted one after the other
+	Parallel bool `json:"parallel,omitempty"`
 	Stateful bool `json:"stateful,omitempty"`
 	Exists   bool `json:"exists,omitempty"`
 }
@@ -338,6 +341,8 @@ type H struct {
 	slowRunning, slowGo chan struct{}
 	prelude bool // first serve cycle of a restart case
 	conn   *fakeConn // the connection object of the current serve cycle
+	inCall   bool     // a script's event method is executing
+	returned []string // "(cb,act,n)": n listener calls of the script's own event had been made when the event method returned
 	stale  []string  // "(cb,act)" of publishes that went to another connection object
 	staleS []string  // their subjects (for the report)
 	d      caseD
@@ -465,7 +470,9 @@ func (h *H) listener(lid int) func(*res.Event) {
 		h.log = append(h.log, logEnt{h.curCb, h.curAct, h.curD, g == h.curGid, "EListen " + strconv.Itoa(lid) + " " + seen})
 		h.kept = append(h.kept, &kept{ev: ev, seen: seen, cb: h.curCb, sameAtCb: true})
 		react := h.d.Setup.React
-		doReact := react != nil && react.Lid == lid && h.depth == 0
+		// (a listener called on a foreign goroutine - a violation, logged above - does not react: nothing
+		// there would recover a panicking reaction)
+		doReact := react != nil && react.Lid == lid && h.depth == 0 && g == h.curGid && h.inCall
 		var savedPlan *actD
 		if doReact {
 			savedPlan = h.plan
@@ -607,10 +614,33 @@ func (h *H) runScript(ci int, r res.Resource, req res.CallRequest) {
 			if req != nil {
 				req.OK(nil)
 			}
-		default:
+		case "reaccess", "reset":
 			doEvent(r, a)
+		default:
+			h.callEvent(ci, ai, r, a)
 		}
 	}
+}
+
+// one event call of a script, with the 'returned' marker: how many listener calls of this event
+// had been made when the event method returned (or panicked)
+func (h *H) callEvent(ci, ai int, r res.Resource, a actD) {
+	h.mu.Lock()
+	h.inCall = true
+	h.mu.Unlock()
+	defer func() {
+		h.mu.Lock()
+		h.inCall = false
+		n := 0
+		for _, e := range h.log {
+			if e.cb == ci && e.act == ai && e.d == 0 && strings.HasPrefix(e.term, "EListen ") {
+				n++
+			}
+		}
+		h.returned = append(h.returned, "("+strconv.Itoa(ci)+","+strconv.Itoa(ai)+","+strconv.Itoa(n)+")")
+		h.mu.Unlock()
+	}()
+	doEvent(r, a)
 }
 
 // the callback that is in flight while Shutdown runs (first serve cycle): it waits until the
@@ -709,6 +739,9 @@ func (h *H) build(s *res.Service) {
 		if sd.Group != "" {
 			opts = append(opts, res.Group(sd.Group))
 		}
+		if sd.Parallel {
+			opts = append(opts, res.Parallel(true))
+		}
 		if self != nil {
 			l := h.listener(self.Lid)
 			opts = append(opts, res.OptionFunc(func(hs *res.Handler) {
@@ -751,12 +784,19 @@ func (h *H) build(s *res.Service) {
 	}
 }
 
+var reqDoneCh = make(chan struct{}, 1024)
 var enqCh = make(chan struct{}, 1024)
 var enqWid string
 var enqMu sync.Mutex
 
 func init() {
 	verifhook.SetNote(func(pt string, s string, n int) {
+		if pt == "request-done" {
+			select {
+			case reqDoneCh <- struct{}{}:
+			default:
+			}
+		}
 		if pt == "enq-new" || pt == "enq-append" {
 			enqMu.Lock()
 			ok := s == enqWid
@@ -899,10 +939,14 @@ func runCase(d caseD) (term string, mutated bool, stale []string, hang error) {
 	}
 	release := make(chan struct{})
 	done := make(chan struct{})
+	par := d.Setup.Parallel
 	// hold the group's worker until every callback is queued, in submission order
-	s.WithGroup(wid, func(*res.Service) { <-release })
-	if err := wait(enqCh, "gate enqueue"); err != nil {
-		hang = err
+	// (a Parallel handler has no worker group: its callbacks are submitted one after the other)
+	if !par {
+		s.WithGroup(wid, func(*res.Service) { <-release })
+		if err := wait(enqCh, "gate enqueue"); err != nil {
+			hang = err
+		}
 	}
 	for i := range d.Cbs {
 		if hang != nil {
@@ -911,13 +955,18 @@ func runCase(d caseD) (term string, mutated bool, stale []string, hang error) {
 		i := i
 		cb := d.Cbs[i]
 		rid := h.rids[cb.Res%len(h.rids)]
+		cbDone := make(chan struct{})
 		if cb.Ctx == "call" {
 			conn.mu.Lock()
 			ch := conn.ch
 			conn.mu.Unlock()
+			for len(reqDoneCh) > 0 {
+				<-reqDoneCh
+			}
 			ch <- &nats.Msg{Subject: "call." + rid + ".m", Reply: "r" + strconv.Itoa(i), Data: []byte(`{"params":{"i":` + strconv.Itoa(i) + `}}`)}
 		} else {
 			err := s.With(rid, func(r res.Resource) {
+				defer close(cbDone)
 				defer func() {
 					if v := recover(); v != nil {
 						h.mu.Lock()
@@ -932,15 +981,29 @@ func runCase(d caseD) (term string, mutated bool, stale []string, hang error) {
 				break
 			}
 		}
+		if par {
+			var err error
+			if cb.Ctx == "call" {
+				err = wait(reqDoneCh, "request completion")
+			} else {
+				err = wait(cbDone, "With callback completion")
+			}
+			if err != nil {
+				hang = err
+			}
+			continue
+		}
 		if err := wait(enqCh, "callback enqueue"); err != nil {
 			hang = err
 		}
 	}
-	s.WithGroup(wid, func(*res.Service) { close(done) })
-	close(release)
-	if hang == nil {
-		if err := wait(done, "group completion"); err != nil {
-			hang = err
+	if !par {
+		s.WithGroup(wid, func(*res.Service) { close(done) })
+		close(release)
+		if hang == nil {
+			if err := wait(done, "group completion"); err != nil {
+				hang = err
+			}
 		}
 	}
 	if hang == nil {
@@ -989,7 +1052,7 @@ func runCase(d caseD) (term string, mutated bool, stale []string, hang error) {
 			allSame = false
 		}
 	}
-	return "GC " + List(cbs) + "\n " + List(ents) + "\n " + List(pan) + "\n " + List(final) + " " + List(same) + " " + List(h.stale), !allSame, h.staleS, hang
+	return "GC " + List(cbs) + "\n " + List(ents) + "\n " + List(pan) + "\n " + List(final) + " " + List(same) + " " + List(h.stale) + " " + List(h.returned), !allSame, h.staleS, hang
 }
 
 // ---------- generation ----------
@@ -1277,6 +1340,9 @@ func (g *gen) setup() setupD {
 	if g.r.Chance(40) {
 		sd.Group = "g"
 	}
+	if g.r.Chance(15) {
+		sd.Parallel = true
+	}
 	sd.Steps = g.steps(sd.Mode, g.r.Intn(4))
 	if ls := listenersOf(sd); len(ls) > 0 && g.r.Chance(35) {
 		sd.React = &reactD{Lid: ls[g.r.Intn(len(ls))], Act: g.reaction(sd)}
@@ -1360,6 +1426,9 @@ func main() {
 		}
 		if d.Restart != "" {
 			dist["restart:"+d.Restart]++
+		}
+		if d.Setup.Parallel {
+			dist["parallel-handler"]++
 		}
 		if mutated {
 			impl = append(impl, ImplViolation{What: "event mutated after delivery: an *Event kept by a listener no longer shows what the listener was handed", Desc: d, Tags: []string{"event-mutated"}})
@@ -1660,6 +1729,27 @@ func main() {
 						acts = append(acts, actD{Op: "reply"})
 					}
 					add("revert-content", single(sd, ctx, acts...))
+				}
+			}
+		}
+		// (k) handlers registered with Parallel(true) (also together with a Group option) that carry
+		// listeners: the listeners run inside the event method on the calling goroutine all the same
+		for i, op := range evOps {
+			for _, nl := range []int{1, 3} {
+				for k, ctx := range []string{"call", "with"} {
+					for _, grp := range []string{"", "g"} {
+						mode := []string{"direct", "pattern", "mount", "wild", "mountpat", "root"}[(i+nl+k)%6]
+						sd := setupD{Mode: mode, Type: "unset", Apply: allApply((i+k)%2 == 0), Steps: g.steps(mode, nl), Parallel: true, Group: grp}
+						acts := []actD{g.withApply(g.baseAction(op), sd, "ok"), g.baseAction("reaccess"), g.withApply(g.baseAction(evOps[(i+1)%6]), sd, "ok")}
+						if ctx == "call" {
+							acts = append(acts, actD{Op: "timeout", Ms: 3}, actD{Op: "reply"})
+						}
+						d := single(sd, ctx, acts...)
+						if nl == 3 {
+							d.Cbs = append(d.Cbs, cbD{Ctx: "with", Script: []actD{g.withApply(g.baseAction(op), sd, "ok")}})
+						}
+						add("parallel", d)
+					}
 				}
 			}
 		}
